@@ -612,3 +612,41 @@ def refhead(repo):
                 "n` / `0 [+n] UInt:8[] x` ends with KeyError / AttributeError instead of a diagnostic", m.rel, f.node.lineno, f.name)
     res.analysed = [m.rel]
     return res
+
+
+def constrefkind(repo, schema=None, sites=None):
+    """R-CONSTREFKIND (C12/C16): a `constant_reference` can only be consumed when it denotes an enum value, a (virtual) field
+    or a runtime parameter -- type_check._type_check_constant_reference ends in `assert False` for anything else and the
+    dependency graph has no node for it.  The grammar does not prevent other targets: the type generated for an inline
+    field `a_b` is named `AB`, which is spelled like a constant.  So the symbol resolver must reject a constant
+    reference whose target is a TypeDefinition: a traversal over [Expression] in _resolve_symbols_from_table whose action
+    tests `constant_reference` and `isinstance(<looked-up object>, ir_data.TypeDefinition)` and appends an error."""
+    from . import traversal as T
+    from ..irschema import Schema
+    res = RuleResult("R-CONSTREFKIND")
+    m = repo.mod("compiler/front_end/symbol_resolver.py")
+    tc = repo.mod("compiler/front_end/type_check.py")
+    consumer = [f for f in tc.top_funcs() if f.name == "_type_check_constant_reference"]
+    if not consumer or "assert False" not in ast.unparse(consumer[0].node):
+        res.samples.append("type_check no longer asserts on unexpected constant reference kinds")
+        res.instances = 1
+        return res
+    drv = [f for f in m.top_funcs() if f.name == "_resolve_symbols_from_table"]
+    if not drv:
+        raise AnalysisError("symbol_resolver._resolve_symbols_from_table not found")
+    res.instances = 2
+    ok = False
+    for n in walk_no_nested_funcs(drv[0].node):
+        if isinstance(n, ast.Call) and (call_name(n) or "").endswith("fast_traverse_ir_top_down") and len(n.args) >= 3 \
+                and ast.unparse(n.args[1]).replace(" ", "") == "[ir_data.Expression]" and isinstance(n.args[2], ast.Name):
+            act = m.funcs.get(n.args[2].id)
+            if act is not None:
+                src = ast.unparse(act.node)
+                if "constant_reference" in src and "TypeDefinition" in src and "isinstance" in src and "errors.append" in src:
+                    ok = True
+    if not ok:
+        res.add(f"{m.rel}|_resolve_symbols_from_table|type-as-constant", "nothing rejects a constant reference that resolves to a type "
+                "definition (`let y = Foo.AB` where `AB` is the type of the inline field `a_b`): KeyError in the dependency checker / "
+                "`assert False` in type_check instead of a diagnostic", m.rel, drv[0].node.lineno, drv[0].name)
+    res.analysed = [m.rel, tc.rel]
+    return res
